@@ -5,6 +5,7 @@ import (
 	"errors"
 	"fmt"
 	"strings"
+	"sync/atomic"
 	"unicode"
 	"unicode/utf8"
 
@@ -87,7 +88,9 @@ type g7Enc struct {
 func g7Encode(s string) g7Enc {
 	var out []byte
 	var err error
-	if p, msg := guard(func() { out, err = gsm7bit.Packed.NewEncoder().Bytes([]byte(s)) }); p {
+	if hung, p, msg := g7Watch("enc/Bytes", func() { out, err = gsm7bit.Packed.NewEncoder().Bytes([]byte(s)) }); hung {
+		return g7Enc{5, nil, msg}
+	} else if p {
 		return g7Enc{2, nil, msg}
 	} else if err != nil {
 		return g7Enc{1, nil, err.Error()}
@@ -157,7 +160,19 @@ type c08 struct {
 	r     *Run
 	seen  map[string]bool
 	nAmb  int
-	nCase int
+	nCase  int
+	nEntry int
+	d16    bool // the library showed exactly the known D16 behaviour at U+00C7 / U+00E7 / septet 9 (section 1)
+	mute   bool // no model cases from the Transformer / entry point checks of the next input (direct tests only)
+	xl    int  // for the next text: 0 no direct Transform calls, 2 a selection of destination sizes, 3 every size
+	ent   bool // for the next text: also String / Writer / Reader / a long-lived object
+}
+
+// textX is text with the Transformer contract (xl) and the other entry points (ent) switched on.
+func (c *c08) textX(rs []rune, bucket string, level, xl int, ent bool) {
+	c.xl, c.ent = xl, ent
+	c.text(rs, bucket, level)
+	c.xl, c.ent = 0, false
 }
 
 // text runs one text through encoder, decoder and detector: direct property
@@ -179,6 +194,25 @@ func (c *c08) text(rs []rune, bucket string, level int) {
 			hasD16 = true
 		}
 	}
+	if hasD16 && c.d16 {
+		// D16 is a known finding judged at the single character; inside longer texts the packing, round trip and
+		// detector clauses are judged with the library's choice at that one slot (U+00E7 <-> 0x09, U+00C7 refused)
+		want, accepted = nil, true
+		for _, x := range rs {
+			switch sp, ok := stdSeptets[x]; {
+			case x == 0xE7:
+				want = append(want, 9)
+			case x == 0xC7 || !ok:
+				accepted = false
+			default:
+				want = append(want, sp...)
+			}
+		}
+		if !accepted {
+			want = nil
+		}
+		hasD16 = false
+	}
 	n := len(want)
 	endsCR := len(rs) > 0 && rs[len(rs)-1] == '\r'
 	amb := accepted && n > 0 && n%8 == 0 && endsCR
@@ -199,6 +233,10 @@ func (c *c08) text(rs []rune, bucket string, level int) {
 	if e.cls == 2 {
 		r.Fail("encode/panic", "Encoder.Bytes panicked", in, e.msg, "a value or an error")
 	}
+	if e.cls == 5 {
+		r.Fail("encode/never-returns", "Encoder.Bytes did not return", in, e.msg, "a value or an error")
+		return
+	}
 	if hasD16 {
 		// the text touches D16: judged by the dedicated single-character test only
 	} else if accepted && e.cls == 1 {
@@ -210,6 +248,14 @@ func (c *c08) text(rs []rune, bucket string, level int) {
 	if !hasD16 && (e.cls == 0) != valid && e.cls != 2 {
 		r.Fail("detector/disagrees-with-encoder", "GSM7BitCoding.Validate and the encoder disagree", in,
 			fmt.Sprintf("Validate=%v encoder class=%d", valid, e.cls), "Validate true exactly when the encoder accepts")
+	}
+	if !hasD16 && e.cls != 2 {
+		// the detector as callers use it: BestCoding / BestSafeCoding pick GSM 7-bit exactly when the encoder accepts
+		best, safe := coding.BestCoding(s) == coding.GSM7BitCoding, coding.BestSafeCoding(s) == coding.GSM7BitCoding
+		if best != (e.cls == 0) || safe != (e.cls == 0) {
+			r.Fail("detector/BestCoding-disagrees-with-encoder", "BestCoding / BestSafeCoding classify the text as GSM 7-bit but the encoder refuses it, or the reverse", in,
+				fmt.Sprintf("BestCoding is GSM7=%v BestSafeCoding is GSM7=%v encoder class=%d", best, safe, e.cls), "GSM 7-bit exactly when the encoder accepts")
+		}
 	}
 	if e.cls == 0 && accepted && !hasD16 {
 		// exact packing
@@ -237,6 +283,9 @@ func (c *c08) text(rs []rune, bucket string, level int) {
 		dcls, d = g7Decode(e.out)
 		drs = d
 		switch {
+		case dcls == 5:
+			r.Fail("decode/never-returns", "Decoder.Bytes did not return on the encoder's output", in, fmt.Sprintf("octets %x", e.out), "a value or an error")
+			return
 		case dcls == 2:
 			r.Fail("decode/panic", "Decoder.Bytes panicked on the encoder's output", in, fmt.Sprintf("octets %x", e.out), "a value or an error")
 		case dcls == 1:
@@ -254,6 +303,34 @@ func (c *c08) text(rs []rune, bucket string, level int) {
 	} else if e.cls == 0 {
 		dcls, drs = g7Decode(e.out)
 	}
+	// the Transformer contract and the other entry points of the same objects
+	if c.xl > 0 && !hasD16 {
+		c.xfEnc(s, e, in, c.xl)
+		if e.cls == 0 && dcls == 0 && len(e.out) > 0 {
+			c.xfDec(e.out, dcls, []byte(string(drs)), in+fmt.Sprintf(" octets %x", g7clip(e.out)), c.xl)
+		}
+	}
+	if c.ent && !hasD16 {
+		c.entries("enc", []byte(s), g7Entry{e.cls, e.out, e.msg}, in, true, func(name string, got g7Entry) {
+			long := len(s) >= 4000 || len(e.out) >= 4000
+			switch {
+			case got.cls == 5:
+				r.Fail("entry/encode/"+name+"-never-returns", "an entry point of the Encoder did not return", in, got.msg, "what Bytes returns")
+			case got.cls == 2:
+				r.Fail("entry/encode/"+name+"-panics", "an entry point of the Encoder panicked", in, got.msg, "what Bytes returns")
+			case e.cls == 1 && got.cls == 0 && len(s) > 0:
+				r.Fail("entry/encode/"+name+"-accepts-what-Bytes-refuses", "a value where Bytes returns an error", in, fmt.Sprintf("%x", got.out), "error")
+			case e.cls == 0 && got.cls == 1 && !long:
+				r.Fail("entry/encode/"+name+"-fails-where-Bytes-succeeds", "an error where Bytes returns octets", in, got.msg, fmt.Sprintf("%x", e.out))
+			case e.cls == 0 && got.cls == 0 && !bytes.Equal(got.out, e.out):
+				r.Fail("entry/encode/"+name+"-differs-from-Bytes", "other octets than Bytes for the same text", in, fmt.Sprintf("%x", got.out), fmt.Sprintf("%x", e.out))
+			}
+		})
+		if e.cls == 0 && dcls == 0 && len(e.out) > 0 {
+			text := []byte(string(drs))
+			c.entries("dec", e.out, g7Entry{dcls, text, ""}, in+fmt.Sprintf(" octets %x", g7clip(e.out)), true, c.judgeDecEntry(in+fmt.Sprintf(" octets %x", g7clip(e.out)), e.out, dcls, text))
+		}
+	}
 	if !emit {
 		return
 	}
@@ -262,14 +339,37 @@ func (c *c08) text(rs []rune, bucket string, level int) {
 	if len(r.Samples) < 6 && len(rs) > 2 && accepted {
 		r.Sample(map[string]interface{}{"text": s, "septets": n, "octets": fmt.Sprintf("%x", e.out), "decoded": string(drs), "ambiguous": amb})
 	}
+	if c.mute {
+		return
+	}
 	// destination capacities, including the exact fit that exposed D14
 	if e.cls != 0 || (amb && len(e.out) != (7*n+7)/8) {
 		return
 	}
 	need := len(e.out)
+	if level == 1 && c.xl == 0 {
+		if c.nCase%2 == 1 && r.Quick {
+			return // quick tier: every second text of the big sweeps
+		}
+		// the exact fit into a destination the caller left full of 0xFF (D14 and the OR-ing packer in one call)
+		d0 := mkDst(need, 0xFF, r.Rng)
+		dst := append([]byte{}, d0...)
+		call := g7Xf("enc/Transform", gsm7bit.Packed.NewEncoder().Transformer, false, dst, []byte(s), true)
+		r.Count(fmt.Sprintf("xf/%s/%d/%d", s, need, 0xFF), len(rs) > 0, "encoder Transform, destination = need (exact fit), 0xFF")
+		c.judgeCall("encode", call, in+fmt.Sprintf(" len(dst)=%d dst pre-filled with 0xFF", need), len(s), need, need, true, e.out, true)
+		if call.cls != 5 && (call.cls != 3 || (call.nDst == 0 && call.nSrc == 0)) {
+			out := []byte{}
+			if call.cls == 0 && call.nDst >= 0 && call.nDst <= len(dst) {
+				out = dst[:call.nDst]
+			}
+			r.Case(fmt.Sprintf("enc Transform cap=%d fill=255 %s", need, in),
+				fmt.Sprintf("enc_call_ok %s %s true %d %d%%nat %d%%nat %s", coqDst(need, 0xFF, d0), coqHex([]byte(s)), call.cls, nat(call.nDst), nat(call.nSrc), coqHex(out)))
+		}
+		return
+	}
 	caps := []int{need, need - 1}
-	if level > 1 {
-		caps = append(caps, need+1, len(s), need+1+r.Rng.Intn(8))
+	if level > 1 && !(r.Quick && c.xl > 0) {
+		caps = append(caps, need+1+r.Rng.Intn(8))
 	}
 	seenCap := map[int]bool{}
 	for _, cp := range caps {
@@ -296,9 +396,9 @@ func (c *c08) text(rs []rune, bucket string, level int) {
 	}
 	// decoder capacities on the canonical octets
 	needD := len(s)
-	for _, cp := range []int{needD, needD - 1, needD + 3} {
-		if cp < 0 {
-			continue
+	for i, cp := range []int{needD, needD - 1, needD + 3} {
+		if cp < 0 || (r.Quick && c.xl > 0 && i != c.nCase%3) {
+			continue // the direct Transform calls of xfDec cover the sizes; one older-style case per text keeps dec_transform tied
 		}
 		cls, out, msg := g7Transform(gsm7bit.Packed.NewDecoder().Transformer, e.out, cp)
 		r.Count(fmt.Sprintf("dcap/%s/%d", s, cp), true, "decoder capacity "+capBucket(cp, needD))
@@ -309,7 +409,33 @@ func (c *c08) text(rs []rune, bucket string, level int) {
 			r.Fail("decode/cuts-inside-character", "decoder output is not valid UTF-8", in, fmt.Sprintf("%x", out), "valid UTF-8")
 		}
 		r.Case(fmt.Sprintf("dec_transform cap=%d %s", cp, in),
-			fmt.Sprintf("cap_obs_ok beq_runes (dec_transform %d%%nat %s) %d %s", cp, coqHex(e.out), cls, coqRunes(runesOf(string(out)))))
+			fmt.Sprintf("dcap_obs_ok %d%%nat %s %d %s", cp, coqHex(e.out), cls, coqRunes(runesOf(string(out)))))
+	}
+}
+
+func g7clip(b []byte) []byte {
+	if len(b) > 48 {
+		return b[:48]
+	}
+	return b
+}
+
+func (c *c08) judgeDecEntry(in string, src []byte, dcls int, text []byte) func(name string, got g7Entry) {
+	r := c.r
+	return func(name string, got g7Entry) {
+		long := len(src) >= 4000 || len(text) >= 4000
+		switch {
+		case got.cls == 5:
+			r.Fail("entry/decode/"+name+"-never-returns", "an entry point of the Decoder did not return", in, got.msg, "what Bytes returns")
+		case got.cls == 2:
+			r.Fail("entry/decode/"+name+"-panics", "an entry point of the Decoder panicked", in, got.msg, "what Bytes returns")
+		case dcls == 1 && got.cls == 0 && len(src) > 0:
+			r.Fail("entry/decode/"+name+"-accepts-what-Bytes-refuses", "a value where Bytes returns an error", in, fmt.Sprintf("%q", got.out), "error")
+		case dcls == 0 && got.cls == 1 && !long:
+			r.Fail("entry/decode/"+name+"-fails-where-Bytes-succeeds", "an error where Bytes returns a text", in, got.msg, fmt.Sprintf("%q", text))
+		case dcls == 0 && got.cls == 0 && !bytes.Equal(got.out, text):
+			r.Fail("entry/decode/"+name+"-differs-from-Bytes", "another text than Bytes for the same octets", in, fmt.Sprintf("%q", got.out), fmt.Sprintf("%q", text))
+		}
 	}
 }
 
@@ -337,6 +463,10 @@ func (c *c08) octets(src []byte, bucket string, emit bool) {
 	if cls == 2 {
 		r.Fail("decode/panic", "Decoder.Bytes panicked on arbitrary octets", in, "panic", "a value or an error")
 	}
+	if cls == 5 {
+		r.Fail("decode/never-returns", "Decoder.Bytes did not return on arbitrary octets", in, "no return", "a value or an error")
+		return
+	}
 	if cls == 0 && !utf8.ValidString(string(rs)) {
 		r.Fail("decode/cuts-inside-character", "decoder output is not valid UTF-8", in, string(rs), "valid UTF-8")
 	}
@@ -360,7 +490,68 @@ func (c *c08) octets(src []byte, bucket string, emit bool) {
 			}
 			_ = out
 		}
+		if c.xl > 0 {
+			c.xfDec(src, cls, []byte(string(rs)), in, c.xl)
+		}
+		if c.ent {
+			text := []byte(string(rs))
+			c.entries("dec", src, g7Entry{cls, text, ""}, in, true, c.judgeDecEntry(in, src, cls, text))
+		}
 	}
+}
+
+func (c *c08) octetsX(src []byte, bucket string, xl int, ent bool) {
+	c.xl, c.ent = xl, ent
+	c.octets(src, bucket, true)
+	c.xl, c.ent = 0, false
+}
+
+// raw runs source octets that need not be UTF-8 through the encoder: Go's range yields U+FFFD for every
+// octet that does not start a well-formed sequence, U+FFFD is not a GSM 03.38 character, so the answer
+// must be an error from every entry point, and the detector must say no.
+func (c *c08) raw(src []byte, bucket string) {
+	r := c.r
+	key := "raw/" + string(src)
+	if c.seen[key] {
+		return
+	}
+	c.seen[key] = true
+	s := string(src)
+	in := fmt.Sprintf("source octets %x", src)
+	e := g7Encode(s)
+	valid := coding.GSM7BitCoding.Validate(s)
+	r.Count(key, true, bucket)
+	wantErr := !utf8.Valid(src)
+	if !wantErr {
+		if _, ok := stdTextSeptets([]rune(s)); !ok {
+			wantErr = true
+		}
+	}
+	switch {
+	case e.cls == 2:
+		r.Fail("encode/panic", "Encoder.Bytes panicked", in, e.msg, "a value or an error")
+	case e.cls == 5:
+		r.Fail("encode/never-returns", "Encoder.Bytes did not return", in, e.msg, "a value or an error")
+		return
+	case wantErr && e.cls != 1:
+		r.Fail("encode/invalid-utf8", "source octets that are not UTF-8 text of GSM 03.38 characters must be refused with an error", in, fmt.Sprintf("class=%d octets %x", e.cls, e.out), "error")
+	}
+	if valid != (e.cls == 0) {
+		r.Fail("detector/disagrees-with-encoder", "GSM7BitCoding.Validate and the encoder disagree", in,
+			fmt.Sprintf("Validate=%v encoder class=%d", valid, e.cls), "Validate true exactly when the encoder accepts")
+	}
+	r.Case("raw "+in, fmt.Sprintf("enc_entry_ok %s %d %s && Bool.eqb (validate (utf8_dec %s)) %s", coqHex(src), e.cls, coqHex(e.out), coqHex(src), coqBool(valid)))
+	c.xfEnc(s, e, in, 2)
+	c.entries("enc", src, g7Entry{e.cls, e.out, e.msg}, in, true, func(name string, got g7Entry) {
+		switch {
+		case got.cls == 5:
+			r.Fail("entry/encode/"+name+"-never-returns", "an entry point of the Encoder did not return", in, got.msg, "what Bytes returns")
+		case got.cls == 2:
+			r.Fail("entry/encode/"+name+"-panics", "an entry point of the Encoder panicked", in, got.msg, "what Bytes returns")
+		case got.cls != e.cls || !bytes.Equal(got.out, e.out):
+			r.Fail("entry/encode/"+name+"-differs-from-Bytes", "another answer than Bytes for the same source octets", in, fmt.Sprintf("class=%d %x", got.cls, got.out), fmt.Sprintf("class=%d %x", e.cls, e.out))
+		}
+	})
 }
 
 func corrC08(r *Run) {
@@ -374,7 +565,7 @@ func corrC08(r *Run) {
 	c := &c08{r: r, seen: map[string]bool{}}
 
 	// ---- 1. alphabet, exhaustive over the scalar values (direct test; the theorem is about Gen/Gsm7Tables.v)
-	nAcc := 0
+	nAcc, nD16 := 0, 0
 	for x := rune(0); x <= 0x10FFFF; x++ {
 		if x >= 0xD800 && x <= 0xDFFF {
 			continue
@@ -392,6 +583,7 @@ func corrC08(r *Run) {
 			d16 := (x == 0xC7 && b.cls == 1 && !b.validate) || (x == 0xE7 && b.cls == 0 && bytes.Equal(b.septets, []byte{9}) && b.validate)
 			conforming := (x == 0xC7 && b.cls == 0 && bytes.Equal(b.septets, []byte{9}) && b.validate) || (x == 0xE7 && b.cls == 1 && !b.validate)
 			if d16 {
+				nD16++
 				r.Fail(d16Class, "septet 0x09 is U+00E7 (c with cedilla, small) where GSM 03.38 has U+00C7 (capital)", in,
 					fmt.Sprintf("class=%d septets=%x validate=%v", b.cls, b.septets, b.validate), "U+00C7 <-> 0x09, U+00E7 refused")
 			} else if !conforming {
@@ -414,6 +606,7 @@ func corrC08(r *Run) {
 				fmt.Sprintf("Validate=%v encoder class=%d", b.validate, b.cls), "equal")
 		}
 	}
+	c.d16 = nD16 == 2
 	r.Hist["single scalar values swept"] = 1112064
 	r.Hist["single scalar values accepted"] = nAcc
 	for i := 0; i < 137; i++ {
@@ -458,7 +651,7 @@ func corrC08(r *Run) {
 		"abc€", "1234567", "12345678", "12345[6]", "^{}\\[~]|€", "\r", "\r\r", "\r\r\r\r\r\r\r\r", "[[[[", "[[[\r\r",
 		"of the printing and typesetting", "1234567\r", "@", "@@@@@@@@", "abcdefg@", "àààààààà", "Ç", "ç"}
 	for _, s := range corpus {
-		c.text([]rune(s), "corpus", 2)
+		c.textX([]rune(s), "corpus", 2, 3, true)
 	}
 
 	// ---- 3. all strings of length <= 3 over a 12-symbol alphabet
@@ -488,7 +681,7 @@ func corrC08(r *Run) {
 				if (x == '\r' || y == '\r' || x == 0x20AC || y == '[') && p%3 == 0 {
 					lvl = 2
 				}
-				c.text(t, "residue sweep", lvl)
+				c.textX(t, "residue sweep", lvl, 2*b2i(lvl == 2 && (p+int(x)+int(y))%4 == 0), lvl == 2 && (p+int(x))%5 == 0)
 			}
 		}
 	}
@@ -510,7 +703,7 @@ func corrC08(r *Run) {
 					t = append(t, filler[i%len(filler)])
 				}
 				t = append(t, y, '\r')
-				c.text(t, "8k-1 / 8k / 8k+1 septets ending in CR", 2)
+				c.textX(t, "8k-1 / 8k / 8k+1 septets ending in CR", 2, 2*b2i((k+d)%2 == 0), k <= 2 || (k+d)%3 == 0)
 			}
 		}
 	}
@@ -613,8 +806,44 @@ func corrC08(r *Run) {
 		c.text([]rune(s2), "hand-picked rewritable sequences", 2)
 	}
 
+	// ---- 4d. packed output LONGER than the UTF-8 source (more than one extension character in seven, no two-octet
+	//      character): transform.Bytes starts with len(src) octets of room and has to come back with more
+	for ne := 1; ne <= r.N(12, 40); ne++ {
+		for _, na := range []int{0, 1, 5} {
+			if na > ne*6 {
+				continue
+			}
+			t := make([]rune, 0, ne+na)
+			for i := 0; i < ne; i++ {
+				t = append(t, []rune("[]{}|~^\\\f")[(i+ne)%9])
+				if i < na {
+					t = append(t, filler[i])
+				}
+			}
+			c.textX(t, "output longer than the source (grow path of transform.Bytes)", 2, 2*b2i(ne%3 == 0), ne%4 == 0)
+			c.text(append(t, '\r'), "output longer than the source (grow path of transform.Bytes)", 1)
+		}
+	}
+
+	// ---- 4e. the other extreme: only two-octet characters, the UTF-8 text is more than twice as long as the packed
+	//      form (a decoder that sizes its output from the number of packed octets runs out of room)
+	var twoOctet []rune
+	for _, x := range stdRepertoire {
+		if x >= 0x80 && x < 0x800 && !isD16(x) {
+			twoOctet = append(twoOctet, x)
+		}
+	}
+	for n := 1; n <= r.N(26, 70); n++ {
+		t := make([]rune, n)
+		for i := range t {
+			t[i] = twoOctet[(i*7+n)%len(twoOctet)]
+		}
+		c.textX(t, "only two-octet characters (UTF-8 longer than twice the packed form)", 2, 2*b2i(n%3 != 1), n%5 == 0)
+	}
+
 	// ---- 5. random texts over the 137 characters (CR / ESC / '@' heavy at the end), some with a foreign character
 	nr := r.N(400, 6000)
+	th := r.N(1, 4) // the thorough tier has 15 times the inputs: a smaller share of them gets the full set of direct Transform calls
 	for i := 0; i < nr; i++ {
 		ln := r.Rng.Intn(48)
 		if i%25 == 7 {
@@ -635,8 +864,11 @@ func corrC08(r *Run) {
 			default:
 				t[j] = stdRepertoire[r.Rng.Intn(len(stdRepertoire))]
 			}
-			if t[j] == 0xC7 { // D16 has its own test
+			if t[j] == 0xC7 { // D16 has its own test; inside texts slot 9 is exercised with the library's choice
 				t[j] = 'C'
+				if c.d16 {
+					t[j] = 0xE7
+				}
 			}
 		}
 		bucket := "random over the repertoire"
@@ -645,23 +877,61 @@ func corrC08(r *Run) {
 			t[r.Rng.Intn(ln)] = foreign[r.Rng.Intn(len(foreign))]
 			bucket = "random with one foreign character"
 		}
-		c.text(t, bucket, 2)
+		c.mute = ln > 300
+		c.textX(t, bucket, 2, 2*b2i(i%(4*th) == 1 || ln > 200), i%(3*th) == 0 || ln > 200)
+		c.mute = false
 	}
-	// invalid UTF-8 is not a text; it must still give an error, not a panic
-	for _, s := range []string{"\xff", "a\xc3", "\xed\xa0\x80", strings.Repeat("a", 7) + "\x80"} {
-		e := g7Encode(s)
-		r.Count("bad/"+s, true, "invalid UTF-8")
-		if e.cls != 1 {
-			r.Fail("encode/invalid-utf8", "invalid UTF-8 must be refused with an error", fmt.Sprintf("bytes %x", s), fmt.Sprintf("class=%d", e.cls), "error")
+	// very long texts, direct tests only (index and length arithmetic beyond 255 / 4096 / 65535 octets of output,
+	// beyond the 4096-octet buffers of transform.Reader / Writer)
+	for _, ln := range []int{4700, 9400, 75000} {
+		t := make([]rune, ln)
+		for j := range t {
+			t[j] = stdRepertoire[(j*31+r.Rng.Intn(7))%len(stdRepertoire)]
+			if t[j] == 0xC7 {
+				t[j] = 'C'
+			}
 		}
+		c.mute = true
+		c.textX(t, "very long texts (direct tests only)", 0, 2, true)
+		c.mute = false
 	}
+	// ---- 5b. source octets that are not (or only just) UTF-8: every ill-formed shape of the Unicode standard's
+	//      table 3-7 (lone continuation, truncated 2/3/4-octet sequence, overlong, surrogate, beyond U+10FFFF,
+	//      0xC0/0xC1/0xF5..0xFF), alone, after 0..8 ordinary characters, and before one; and well-formed
+	//      neighbours of each (they decode to a foreign character or, for the euro sign, to a GSM character)
+	shapes := []string{"\x80", "\xbf", "\xc0\x80", "\xc1\xbf", "\xc2", "\xc2\x41", "\xdf", "\xe0\x80\x80", "\xe0\x9f\xbf", "\xe0\xa0", "\xe2\x82", "\xe2",
+		"\xe2\x82\x41", "\xed\xa0\x80", "\xed\xbf\xbf", "\xef\xbf", "\xf0\x80\x80\x80", "\xf0\x8f\xbf\xbf", "\xf0\x90\x80", "\xf0\x9f\x98", "\xf4\x90\x80\x80",
+		"\xf5\x80\x80\x80", "\xf8\x88\x80\x80\x80", "\xfe", "\xff", "\xe2\x82\xac", "\xe2\x82\xad", "\xc2\xa3", "\xc2\xa0", "\xce\x94", "\xef\xbf\xbd", "\xf0\x9f\x98\x80"}
+	for i, sh := range shapes {
+		c.raw([]byte(sh), "source octets: ill-formed UTF-8 shapes and well-formed neighbours")
+		for p := 1; p <= 8; p++ {
+			if r.Quick && (p+i)%4 != 0 {
+				continue
+			}
+			c.raw([]byte(string(filler[:p])+sh), "source octets: ill-formed UTF-8 shapes and well-formed neighbours")
+		}
+		c.raw([]byte(sh+"a"), "source octets: ill-formed UTF-8 shapes and well-formed neighbours")
+	}
+	for i := 0; i < r.N(40, 600); i++ {
+		ln := 1 + r.Rng.Intn(12)
+		b := r.Rng.Bytes(ln)
+		for j := range b {
+			if r.Rng.Intn(3) > 0 {
+				b[j] = byte(0x20 + r.Rng.Intn(0x5F))
+			}
+		}
+		c.raw(b, "source octets: random, mostly ASCII")
+	}
+
+	// ---- 5c. state across calls on one object
+	c.histories()
 
 	// ---- 6. arbitrary octets for the decoder
 	for b := 0; b < 256; b++ {
-		c.octets([]byte{byte(b)}, "every single octet", true)
+		c.octetsX([]byte{byte(b)}, "every single octet", 2*b2i(b%16 == int(r.Seed%16) || b == 0x1B || b == 0x0D || b == 0x80), b%32 == int(r.Seed%32))
 	}
-	for _, s := range [][]byte{{0x1B}, {0x1B, 0x80}, {0x1B, 0x0D}, {0x9B, 0x06}, {0x0D}, {0x1A, 0x0D}, {}} {
-		c.octets(s, "corpus octets", true)
+	for _, s := range [][]byte{{0x1B}, {0x1B, 0x80}, {0x1B, 0x0D}, {0x9B, 0x06}, {0x0D}, {0x1A, 0x0D}, {}, {0x31, 0xD9, 0x8C, 0x56, 0xB3, 0xDD, 0x1A}, {0x0D, 0x00, 0x00, 0x00, 0x00, 0x00, 0x1A}} {
+		c.octetsX(s, "corpus octets", 3, true)
 	}
 	no := r.N(500, 8000)
 	for i := 0; i < no; i++ {
@@ -694,7 +964,10 @@ func corrC08(r *Run) {
 			src = append([]byte{}, e.out...)
 			src[r.Rng.Intn(len(src))] ^= 1 << uint(r.Rng.Intn(8))
 		}
-		c.octets(src, "random octets", true)
+		c.octetsX(src, "random octets", 2*b2i(i%(5*th) == 0), i%(6*th) == 0)
+	}
+	if n := atomic.LoadInt32(&g7HungCount); n > 0 {
+		r.Notes = append(r.Notes, fmt.Sprintf("%d entry point(s) did not return within %v and were not called again", n, g7Patience))
 	}
 	r.Notes = append(r.Notes, fmt.Sprintf("texts in the ambiguous class (n%%8==0, ends in CR): %d; model cases: %d", c.nAmb, len(r.caseExprs)))
 }
